@@ -183,13 +183,15 @@ def r_point(ctx: Ctx, model, tr):
 
 
 def run(ctx: Ctx):
+    from ..sites import model_methods_stateless as _mms
+    _mms(ctx, load(ctx.root), "C11", "S-fresh")
     model = load(ctx.root)
     tr = Translator(model)
     ctx.assume("sympy's normalisation / integration of rational functions is sound; scipy quad integrates its integrand")
     r_models(ctx, model, tr)
     r_point(ctx, model, tr)
     ctx.analysed["models"] = CLOSED + QUAD
-    from ..sites import no_memoisation
+    from ..sites import model_methods_stateless, no_memoisation
     ctx.rule("S-fresh: no caching decorator on any function of pygaps.modelling.")
     no_memoisation(ctx, load(ctx.root), "C11", "S-fresh", ('pygaps.modelling.',),
                    "the spreading pressure must be the integral for the model's current parameters: a cached value survives a refit or a parameter change (the cache key is the model object)")
